@@ -114,6 +114,7 @@ class Model:
                     if c is not None and isinstance(st.value, (ast.Name, ast.Attribute)):
                         c.late[st.targets[0].attr] = (m, ast.unparse(st.value))
         self._mro = {}
+        self.touched = set()          # functions the rules asked the model for (by name or along an MRO): what rules N and X treat as analysed
 
     # ----------------------------------------------------------------- names
     def resolve(self, mod, dotted, _depth=0):
@@ -157,9 +158,11 @@ class Model:
     def func(self, q):
         """module-level function, or Class.method, by qualified name"""
         if q in self.functions:
+            self.touched.add(q)
             return self.functions[q]
         cq, _, name = q.rpartition(".")
         if cq in self.classes and name in self.classes[cq].methods:
+            self.touched.add(q)
             return self.classes[cq].methods[name][0]
         raise AnchorError("function %s not found" % q)
 
@@ -210,6 +213,7 @@ class Model:
                 return (k, ("late", m, dotted), "late")
             if name in k.methods:
                 st, kind = k.methods[name]
+                self.touched.add("%s.%s" % (k.q, name))
                 return (k, st, kind)
             if name in k.aliases:
                 r = self.resolve(k.mod, k.aliases[name])
